@@ -340,6 +340,17 @@ def fold(term, mapping):
 BLOCK = ("glob", MOD + "_cal_params")
 
 
+def unpartial(t):
+    """functools.partial(f, *a, **k)(*b, **m)  ==  f(*a, *b, **k, **m)  (no starred pieces, no keyword given twice)."""
+    t = strip(t)
+    if head(t) == "call":
+        f = strip(t[1])
+        if head(f) == "call" and strip(f[1]) == ("glob", "functools.partial") and f[2] and not any(head(a) == "star" for a in f[2] + t[2]) \
+                and not any(k == "**" for k, _ in f[3] + t[3]) and not ({k for k, _ in f[3]} & {k for k, _ in t[3]}):
+            return ("call", f[2][0], tuple(f[2][1:]) + tuple(t[2]), tuple(f[3]) + tuple(t[3]))
+    return t
+
+
 def g(name):
     return ("glob", name)
 
@@ -731,14 +742,22 @@ class NN:
     def dist_of(self, q, d, mapping):
         """Classify a (folded) distance-valued term.
         Returns {'kind': LEV|HAM|HAMREP|CUST|BFS-LEV|BFS-HAM|EXT-LEV|EXT-HAM, 'ops': (x, y), 'implied': [(kind, T)], ...} or None."""
-        d = strip(d)
+        d = unpartial(strip(d))
         if head(d) == "ite":
             # a distance chosen between two computations: the same kind on the same operands either way, or a mixture.  A mixture is a
             # decided answer (the reported value is not the mode's distance on one branch) unless the condition pins the alternative
             # scorer to 0 / 1, where Hamming and Levenshtein of equal-length strings agree.
-            a, b = self.dist_of(q, d[2], mapping), self.dist_of(q, d[3], mapping)
+            def uncut(t):
+                # (which scorer a branch uses does not depend on its cut-off)
+                t = unpartial(strip(t))
+                if head(t) == "call" and strip(t[1]) in (LEV, HAM) and len(t[2]) == 2 and {k for k, _ in t[3]} == {"score_cutoff"}:
+                    return ("call", t[1], t[2], ())
+                return t
+            a, b = self.dist_of(q, uncut(d[2]), mapping), self.dist_of(q, uncut(d[3]), mapping)
             if a is None or b is None:
                 return None
+            if a["kind"] == b["kind"] and (uncut(d[2]) != strip(d[2]) or uncut(d[3]) != strip(d[3])):
+                return None          # one scorer, capped on a branch: the capped-distance question, not a mixture
             same_ops = strip_all(a["ops"]) == strip_all(b["ops"])
             if a["kind"] == b["kind"] and same_ops and not a["implied"] and not b["implied"]:
                 return a
@@ -760,6 +779,8 @@ class NN:
                 kind = {LEV: "LEV", HAM: "HAM", HAMREP: "HAMREP", CALLABLE: "CUST"}.get(f)
                 if kind:
                     return {"kind": kind, "ops": (d[2][0], d[2][1]), "implied": []}
+            if f in (LEV, HAM) and len(d[2]) == 2 and {k for k, _ in d[3]} == {"score_cutoff"}:
+                return None          # the capped distance: exact only under a guard on the same cut-off (check_site reads that form); otherwise not decided
             if head(f) == "glob" and len(d[2]) == 2:
                 # some other two-argument function used as the distance: decided (wrong kind), not unreadable
                 return {"kind": "OTHER:" + f[1] + ("(" + ",".join(k for k, _ in d[3]) + ")" if d[3] else ""), "ops": (d[2][0], d[2][1]), "implied": []}
